@@ -424,6 +424,11 @@ func (p *c15) Run(rec *core.Recorder, seed uint64, idx int, tier string) {
 		}
 		// follow the engine's (allowed) choice
 		if cacheOn {
+			if newerCheck && ent != nil && got == ent.version && o.loader == ent.loader {
+				// the loader's copy was newer but has the same content: the engine has reloaded it,
+				// so from now on it is unchanged until its mtime moves again
+				ent.mtime = loaders[o.loader].content[name].mtime
+			}
 			if ent == nil || got != ent.version {
 				c := &c15Cached{version: got, loader: o.loader}
 				if o.loader >= 0 {
@@ -515,8 +520,12 @@ func (p *c15) Run(rec *core.Recorder, seed uint64, idx int, tier string) {
 			}
 			src := newVer(name, fmt.Sprintf("L%d", li))
 			if has && how == "equal-mtime" && r.Bool() {
-				src = cur.src // touch without change
+				src = cur.src // rewrite without change
 				how = "unchanged"
+			}
+			if has && how == "newer" && r.P(1, 3) {
+				src = cur.src // touch: newer mtime, same content
+				how = "touched (newer mtime, same content)"
 			}
 			if err := setContent(li, name, &c15Entry{src, mt}); err != nil {
 				rec.HarnessFault("setContent: %v", err)
